@@ -8,8 +8,11 @@
 (* spelled l elements (dictionary through the public API), sorted = indices are in  *)
 (* sequence order.                                                                  *)
 (* Layer A: the pairs selected for a position are the l pairs of the sequence with  *)
-(* the smallest table values there - a function of the multiset only; with exact    *)
-(* ties any choice among the tied pairs is allowed.                                 *)
+(* the smallest table values there - a function of the multiset only.  The race     *)
+(* values of different pairs are continuous and independent, so an exact tie at the *)
+(* selection boundary does not happen unless two pairs share their random stream -  *)
+(* which makes the selection depend on the order of the sequence; it is therefore   *)
+(* rejected (strict inequality) and not tolerated.                                  *)
 EXTENDS Integers, Sequences, FiniteSets, TLC, Json, IOUtils
 
 Rec == ndJsonDeserialize(IOEnv.TRACE)
@@ -22,7 +25,7 @@ Range(s) == {s[i] : i \in 1..Len(s)}
 (* S is a valid choice of the L smallest of P at position pos *)
 ValidSelection(S, P, pos) ==
   /\ S \subseteq P /\ Cardinality(S) = h.l
-  /\ \A p \in S, q \in P \ S : h.tab[p][pos] <= h.tab[q][pos]
+  /\ \A p \in S, q \in P \ S : h.tab[p][pos] < h.tab[q][pos]
 
 HsOK(r) ==
   LET P == Range(r.order) IN
